@@ -428,6 +428,30 @@ pub fn run(run: &Run) {
             }
         }
     };
+    // Box-Cox with a shift that nearly cancels x: y = x + shift is tiny but exactly representable (the difference of
+    // two nearby floats is exact), and the transform is that of y
+    for &x in &[0.375, 2.5, 1e3, 1.0, 7.25e-3] {
+        let ts: Vec<f64> = (20..=60).step_by(4).map(|k| 2f64.powi(-k) * x).chain([1e-12 * x, 3.0 * 2f64.powi(-54) * x, 1e-9 * x, 1e-6 * x]).collect();
+        for &t in &ts {
+            let sh = -x + t;
+            let y = x + sh;
+            if !(y > 0.0) {
+                continue;
+            }
+            for &lam in &[0.0, 1e-9, 0.5, -0.5, -2.0, 1.0, 2.0] {
+                run.case();
+                run.tr();
+                run.ok();
+                run.nontrivial(1);
+                let want = bc_ref(y, lam);
+                match guard(|| boxcox_shifted(x, lam, sh)) {
+                    Ok(g) if (g - want).abs() <= 1e-9 * want.abs() + 1e-300 => run.regime("boxcox_shifted:nearly-cancelling-shift"),
+                    Ok(g) => run.violate("boxcox_shifted/nearly-cancelling-shift", || format!("boxcox_shifted({:e}, {:e}, {:e}) with x + shift = {:e}: got {:e}, want {:e}", x, lam, sh, y, g, want)),
+                    Err(p) => run.violate("boxcox_shifted/rejects-domain/nearly-cancelling-shift", || format!("boxcox_shifted({:e}, {:e}, {:e}) with x + shift = {:e} > 0 panicked: {}", x, lam, sh, y, p)),
+                }
+            }
+        }
+    }
     // call history: a call whose value does not fit (it may return anything or panic) followed by fitting calls on
     // other rows; rows visited in descending and interleaved order
     for &(bn, bk) in &[(70u64, 35u64), (100, 50), (68, 34), (80, 40), (1000, 500), (67, 33)] {
